@@ -11,6 +11,14 @@ package qbft
 // Part 2 (enumeration): every corpus message x alteration families, each fed to a fresh receiver component;
 // the oracle (c05judge) is independent of verifyMsg/hashProto: a QBFTMsg is authentic iff exactly that content
 // was signed in this process by the key of the member it names (registry of everything that was ever signed).
+// Part 3 (boundary slots): the peer-controlled duty slot at every power of two and at the overflow boundaries of the
+// arithmetic a gater/deadline function can do with it, x every duty type: (a) the function returned by
+// core.NewDutyGater called directly with the clock pinned (option-less constructor inside a bubble, and
+// WithDutyGaterForT), (b) correctly signed messages of every kind for those duties through handle of a component
+// wired to the option-less gater, the real deadline function and a real deadliner on the bubble's fake clock.
+// Part 4 (history): the unsigned alteration families against ONE long-lived component that has seen the genuine
+// messages first (A), sees them after each altered copy (B; F = on a fresh component per altered copy), or has seen
+// the other duty's instance (C); plus the differential oracle: verdict with history == verdict of a fresh component.
 
 import (
 	"bytes"
@@ -21,6 +29,7 @@ import (
 	"fmt"
 	"io"
 	"math"
+	"math/big"
 	"math/rand"
 	"runtime"
 	"sort"
@@ -79,6 +88,8 @@ var (
 type c05eth2 struct {
 	eth2wrap.Client
 	genesis time.Time
+	slotDur time.Duration // 0: c05slotDur
+	spe     uint64        // 0: c05spe
 }
 
 func (c *c05eth2) Genesis(context.Context, *eth2api.GenesisOpts) (*eth2api.Response[*eth2v1.Genesis], error) {
@@ -86,7 +97,14 @@ func (c *c05eth2) Genesis(context.Context, *eth2api.GenesisOpts) (*eth2api.Respo
 }
 
 func (c *c05eth2) Spec(context.Context, *eth2api.SpecOpts) (*eth2api.Response[map[string]any], error) {
-	return &eth2api.Response[map[string]any]{Data: map[string]any{"SECONDS_PER_SLOT": c05slotDur, "SLOTS_PER_EPOCH": uint64(c05spe)}}, nil
+	sd, spe := c.slotDur, c.spe
+	if sd == 0 {
+		sd = c05slotDur
+	}
+	if spe == 0 {
+		spe = c05spe
+	}
+	return &eth2api.Response[map[string]any]{Data: map[string]any{"SECONDS_PER_SLOT": sd, "SLOTS_PER_EPOCH": spe}}, nil
 }
 
 type c05conn struct {
@@ -252,6 +270,10 @@ type c05env struct {
 	table map[[32]byte]*c05val                 // every value known to the harness by hash
 	// registry: deterministic bytes of a QBFTMsg without signature -> signature -> index of the key that signed
 	reg map[string]map[string]int64
+	// memo of the differential oracle: payload -> does a fresh component accept it
+	fresh map[[32]byte]bool
+	// violation signatures already confirmed and reported by this process (history families confirm once per signature)
+	reported map[string]bool
 }
 
 func c05det(m proto.Message) []byte {
@@ -302,7 +324,7 @@ func (e *c05env) addValue(pb proto.Message) *c05val {
 
 func c05newEnv(t *testing.T) *c05env {
 	e := &c05env{t: t, pubs: map[int64]*k1.PublicKey{}, sets: map[core.Duty][]core.UnsignedDataSet{}, props: map[core.Duty][][]byte{},
-		table: map[[32]byte]*c05val{}, reg: map[string]map[string]int64{}}
+		table: map[[32]byte]*c05val{}, reg: map[string]map[string]int64{}, fresh: map[[32]byte]bool{}, reported: map[string]bool{}}
 	for i := 0; i < c05n; i++ {
 		k := testutil.GenerateInsecureK1Key(t, i)
 		id, err := p2p.PeerIDFromKey(k.PubKey())
@@ -622,26 +644,54 @@ func c05describe(en *c05entry) string {
 
 func c05dutyInvalid(d core.Duty) bool { return d.Type < 1 || d.Type > 13 }
 
-func c05dutyGated(d core.Duty) bool { return d.Slot/c05spe > c05slot/c05spe+2 }
+// c05window is what a receiver's clock, beacon spec and gater option say: the oracle's view of "allowed" and
+// "unexpired". Everything is recomputed with math/big, so no slot value can overflow on the oracle's side.
+type c05window struct {
+	nowOff  time.Duration // now - genesis (negative: the clock is before genesis)
+	slotDur time.Duration
+	spe     uint64
+	allowed int // future epochs the gater lets through (documented default: 2)
+}
 
-// c05dutyExpired replicates the duty deadline table of core/deadline.go for the receivers' pinned clock.
-// Only meaningful for slots inside the gater window (no overflow).
-func c05dutyExpired(d core.Duty) (expired, exempt bool) {
+var c05defWin = c05window{nowOff: time.Duration(c05slot)*c05slotDur + c05nowOff, slotDur: c05slotDur, spe: c05spe, allowed: 2}
+
+func c05big(u uint64) *big.Int { return new(big.Int).SetUint64(u) }
+
+// curSlot is the slot the clock is in (0 before genesis).
+func (w c05window) curSlot() uint64 {
+	if w.nowOff < 0 {
+		return 0
+	}
+	return uint64(w.nowOff / w.slotDur)
+}
+
+// gated: the duty's epoch lies more than `allowed` epochs after the current epoch. epoch(slot) = floor(slot/spe).
+func (w c05window) gated(d core.Duty) bool {
+	ep := new(big.Int).Div(c05big(d.Slot), c05big(w.spe))
+	lim := new(big.Int).Div(c05big(w.curSlot()), c05big(w.spe))
+	lim.Add(lim, big.NewInt(int64(w.allowed)))
+	return ep.Cmp(lim) > 0
+}
+
+// expired replicates the duty deadline table of core/deadline.go: the deadline genesis + slot*slotDur + duration(type)
+// + slotDur/12 lies strictly before now.
+func (w c05window) expired(d core.Duty) (expired, exempt bool) {
 	var dur time.Duration
 	switch int(d.Type) {
 	case 4, 6: // exit, builder registration
 		return false, true
 	case 1, 7: // proposer, randao
-		dur = c05slotDur / 3
+		dur = w.slotDur / 3
 	case 2, 9: // attester, aggregator
-		dur = c05spe * c05slotDur
+		dur = time.Duration(w.spe) * w.slotDur
 	case 8, 11: // prepare aggregator, prepare sync contribution
-		dur = 2 * c05spe * c05slotDur
+		dur = 2 * time.Duration(w.spe) * w.slotDur
 	default:
-		dur = c05slotDur
+		dur = w.slotDur
 	}
-	off := time.Duration(int64(d.Slot)-c05slot)*c05slotDur + dur + c05slotDur/12
-	return off < c05nowOff, false
+	dl := new(big.Int).Mul(c05big(d.Slot), big.NewInt(int64(w.slotDur)))
+	dl.Add(dl, big.NewInt(int64(dur+w.slotDur/12)))
+	return dl.Cmp(big.NewInt(int64(w.nowOff))) < 0, false
 }
 
 // authentic: "" if m is exactly a content that the key of member m.peer_idx signed, else the rule broken.
@@ -689,7 +739,7 @@ func c05refHashes(m *pbv1.QBFTMsg) [][32]byte {
 }
 
 // judge returns must=true if the message must be rejected, with the rule it breaks and where.
-func (e *c05env) judge(alt *pbv1.QBFTConsensusMsg, excused *int) (must bool, rule, where string) {
+func (e *c05env) judge(alt *pbv1.QBFTConsensusMsg, excused *int, w c05window) (must bool, rule, where string) {
 	if alt == nil || alt.GetMsg() == nil || alt.GetMsg().GetDuty() == nil {
 		return true, "malformed", "msg"
 	}
@@ -704,10 +754,10 @@ func (e *c05env) judge(alt *pbv1.QBFTConsensusMsg, excused *int) (must bool, rul
 	switch {
 	case c05dutyInvalid(duty):
 		return true, "duty-invalid", "msg"
-	case c05dutyGated(duty):
+	case w.gated(duty):
 		return true, "duty-gated", "msg"
 	}
-	if exp, _ := c05dutyExpired(duty); exp {
+	if exp, _ := w.expired(duty); exp {
 		return true, "duty-expired", "msg"
 	}
 	if len(alt.GetJustification()) > 2*c05n {
@@ -772,6 +822,7 @@ var c05rcvGenesis = time.Date(2024, 1, 1, 0, 0, 0, 0, time.UTC)
 type c05rcv struct {
 	nd     *c05node
 	cancel context.CancelFunc
+	win    c05window
 }
 
 func c05newRcv(e *c05env) (*c05rcv, error) {
@@ -782,7 +833,21 @@ func c05newRcv(e *c05env) (*c05rcv, error) {
 		cancel()
 		return nil, err
 	}
-	return &c05rcv{nd, cancel}, nil
+	return &c05rcv{nd, cancel, c05defWin}, nil
+}
+
+// c05newRcvBubble must be called inside a synctest bubble: a receiver built with the option-less constructors
+// (core.NewDutyGater with its default window and time.Now, core.NewDeadliner on the real clock), i.e. on the
+// bubble's fake clock, which stands still while the harness goroutine runs. Genesis is placed so that "now" is
+// w.nowOff after it.
+func c05newRcvBubble(e *c05env, w c05window) (*c05rcv, error) {
+	ctx, cancel := context.WithCancel(context.Background())
+	nd, err := c05newNode(ctx, e, 3, nil, time.Now().Add(-w.nowOff), nil)
+	if err != nil {
+		cancel()
+		return nil, err
+	}
+	return &c05rcv{nd, cancel, w}, nil
 }
 
 func c05snap(c *Consensus) string {
@@ -794,6 +859,34 @@ func c05snap(c *Consensus) string {
 	}
 	sort.Strings(l)
 	return strings.Join(l, ",")
+}
+
+// c05peek returns the content of every receive buffer, oldest first, and puts it back (nobody else reads or
+// writes the buffers while the harness holds the lock: no instance is running on a receiver).
+func c05peek(c *Consensus) map[core.Duty][]Msg {
+	c.mutable.Lock()
+	defer c.mutable.Unlock()
+	out := map[core.Duty][]Msg{}
+	for d, inst := range c.mutable.instances {
+		n := len(inst.RecvBuffer)
+		for i := 0; i < n; i++ {
+			m := <-inst.RecvBuffer
+			out[d] = append(out[d], m)
+		}
+		for _, m := range out[d] {
+			inst.RecvBuffer <- m
+		}
+	}
+	return out
+}
+
+func c05maxBuffered(c *Consensus) (n int) {
+	c.mutable.Lock()
+	defer c.mutable.Unlock()
+	for _, inst := range c.mutable.instances {
+		n = max(n, len(inst.RecvBuffer))
+	}
+	return n
 }
 
 func c05drain(c *Consensus) (out []Msg, duties []core.Duty) {
@@ -826,15 +919,28 @@ type c05outcome struct {
 	excused  int
 }
 
-// try feeds one frame payload to the receiver and judges the outcome.
+// try feeds one frame payload to the receiver and judges the outcome; afterwards the receive buffers are emptied
+// (the instance map keeps its entries).
 func (e *c05env) try(rc *c05rcv, payload []byte, viaStream bool) (o c05outcome) {
+	return e.tryOpt(rc, payload, viaStream, false)
+}
+
+// tryOpt with keep=true leaves everything that was enqueued where it is (history on a long-lived component): the
+// buffers are only emptied, like a consumer would, when one of them gets close to its capacity.
+func (e *c05env) tryOpt(rc *c05rcv, payload []byte, viaStream, keep bool) (o c05outcome) {
 	c := rc.nd.c
 	dec, derr := c05decode(payload)
 	o.Decoded = derr == nil
 	if derr != nil {
 		o.Must, o.Rule, o.Where = true, "undecodable", "frame"
 	} else {
-		o.Must, o.Rule, o.Where = e.judge(dec, &o.excused)
+		o.Must, o.Rule, o.Where = e.judge(dec, &o.excused, rc.win)
+	}
+	if keep {
+		if c05maxBuffered(c) > 80 {
+			c05drain(c)
+		}
+		return e.tryKeep(rc, dec, derr, payload, o)
 	}
 	before := c05snap(c)
 	if derr != nil || viaStream {
@@ -873,6 +979,48 @@ func (e *c05env) try(rc *c05rcv, payload []byte, viaStream bool) (o c05outcome) 
 	return o
 }
 
+// tryKeep: like try, but nothing is removed from the buffers; what an acceptance enqueued is read by c05peek.
+func (e *c05env) tryKeep(rc *c05rcv, dec *pbv1.QBFTConsensusMsg, derr error, payload []byte, o c05outcome) c05outcome {
+	c := rc.nd.c
+	before := c05snap(c)
+	bufBefore := c05peek(c)
+	if derr != nil {
+		rc.nd.host.inject(e.peers[0].ID, c05frame(payload))
+		o.Accepted = c05snap(c) != before
+	} else {
+		_, _, err := c.handle(context.Background(), e.peers[0].ID, dec)
+		o.Accepted = err == nil
+		if err != nil {
+			o.Err = err.Error()
+		}
+	}
+	after := c05snap(c)
+	if !o.Accepted {
+		if after != before {
+			o.Bad, o.Detail = "rejected-but-state-changed", fmt.Sprintf("rejected (%q) but the instance state went from [%s] to [%s]", o.Err, before, after)
+		}
+		return o
+	}
+	if o.Must {
+		o.Bad = "accepted-inauthentic"
+		o.Detail = fmt.Sprintf("accepted although it breaks rule %q at %s; instance state went from [%s] to [%s]", o.Rule, o.Where, before, after)
+		return o
+	}
+	// exactly one message more, in the buffer of its duty, and it is the message that was sent
+	bufAfter := c05peek(c)
+	duty := core.DutyFromProto(dec.GetMsg().GetDuty())
+	grown := 0
+	for d, l := range bufAfter {
+		grown += len(l) - len(bufBefore[d])
+	}
+	l := bufAfter[duty]
+	if grown != 1 || len(l) != len(bufBefore[duty])+1 || !proto.Equal(l[len(l)-1].msg, dec.GetMsg()) ||
+		len(l[len(l)-1].justificationProtos) != len(dec.GetJustification()) {
+		o.Bad, o.Detail = "accepted-but-enqueued-differs", fmt.Sprintf("accepted message is not what was enqueued (buffers grew by %d)", grown)
+	}
+	return o
+}
+
 type c05case struct {
 	Key    string `json:"corpus_key"`
 	Family string `json:"family"`
@@ -891,6 +1039,15 @@ type c05x struct {
 	only   string // replay: evaluate only this alteration id
 	stream bool   // feed through the stream handler
 	found  *c05outcome
+	mk     func() (*c05rcv, error) // builds another receiver like rc (nil: c05newRcv)
+	hist   *c05hist                // non-nil: the family runs against a component with history
+}
+
+func (x *c05x) newRcv() (*c05rcv, error) {
+	if x.mk != nil {
+		return x.mk()
+	}
+	return c05newRcv(x.e)
 }
 
 // emit evaluates one altered payload. class names the distinct class for the evidence.
@@ -898,10 +1055,27 @@ func (x *c05x) emit(id, class string, payload []byte) {
 	if x.only != "" && id != x.only {
 		return
 	}
+	if x.hist != nil {
+		x.emitHist(id, class, payload)
+		return
+	}
 	o := x.e.try(x.rc, payload, x.stream)
 	x.found = &o
 	x.r.Eval(x.base.Kind + ":" + class)
 	x.r.Steps(1)
+	if strings.HasPrefix(class, "bslot:") {
+		// non-vacuity of the boundary-slot dimension, per slot class
+		cl := strings.SplitN(class, ":", 3)[1]
+		switch {
+		case o.Accepted:
+			x.r.Count("bslot_handle_accepted:"+cl, 1)
+		default:
+			x.r.Count("bslot_handle_rejected:"+cl, 1)
+		}
+		if o.Must {
+			x.r.Count("bslot_handle_must_reject:"+o.Rule, 1)
+		}
+	}
 	switch {
 	case !o.Decoded:
 		x.r.Count("rejected_at_decode", 1)
@@ -931,7 +1105,7 @@ func (x *c05x) emit(id, class string, payload []byte) {
 	x.r.Count("violating:"+class, 1)
 	// confirm three times on fresh receivers
 	for k := 0; k < 3; k++ {
-		rc, err := c05newRcv(x.e)
+		rc, err := x.newRcv()
 		if err != nil {
 			x.r.Note("cannot build a receiver for confirmation: " + err.Error())
 			return
@@ -1190,6 +1364,20 @@ func (x *c05x) famFields(thorough bool) {
 				lf.holder(alt).Set(fd, a.v)
 				x.emitMsg("field="+lf.name()+":"+a.label, "field="+lf.name()+":"+c05flipClass(a.label), alt)
 			}
+			if fd.Name() == "value_hash" || fd.Name() == "prepared_value_hash" {
+				// the hash of another valid value, that value attached: only the signature stands in the way
+				for i, o := range x.e.otherValues(x.base.msg) {
+					if !thorough && i >= 2 {
+						break
+					}
+					alt := c05clone(x.base.msg)
+					lf.holder(alt).Set(fd, protoreflect.ValueOfBytes(o.hash[:]))
+					if len(alt.Values) < 2*(len(alt.Justification)+1) {
+						alt.Values = append(alt.Values, o.any)
+					}
+					x.emitMsg(fmt.Sprintf("field=%s:=other-value[%d]+value", lf.name(), i), "field="+lf.name()+":=other-value+value", alt)
+				}
+			}
 		default:
 			for _, a := range c05scalarAlts(fd, cur) {
 				alt := c05clone(x.base.msg)
@@ -1217,6 +1405,23 @@ func (x *c05x) famFields(thorough bool) {
 	alt := c05clone(x.base.msg)
 	alt.ProtoReflect().SetUnknown(protowire.AppendVarint(protowire.AppendTag(nil, 15, protowire.VarintType), 1))
 	x.emitMsg("field=outer:unknown-field-15", "field=outer:unknown-field", alt)
+	// the duty changed consistently in the message and all its justifications (the duty-equality rule holds)
+	for _, d := range []struct {
+		name string
+		slot uint64
+		typ  int32
+	}{
+		{"other-allowed-slot", c05D2.Slot, int32(c05D2.Type)}, {"previous-slot", c05slot - 1, int32(core.DutyAttester)},
+		{"proposer-same-slot", c05slot, int32(core.DutyProposer)}, {"aggregator-same-slot", c05slot, int32(core.DutyAggregator)},
+		{"aggregator-other-slot", c05D2.Slot, int32(core.DutyAggregator)},
+	} {
+		alt := c05clone(x.base.msg)
+		alt.Msg.Duty = &pbv1.Duty{Slot: d.slot, Type: d.typ}
+		for _, j := range alt.Justification {
+			j.Duty = &pbv1.Duty{Slot: d.slot, Type: d.typ}
+		}
+		x.emitMsg("field=all.duty:="+d.name, "field=all.duty:="+d.name, alt)
+	}
 }
 
 // famResigned: every leaf altered, then the altered QBFTMsg is signed again with the key of the member it
@@ -1693,7 +1898,7 @@ func (x *c05x) rawFrame(id, class string, stream []byte) {
 		if l, k := binary.Uvarint(stream); k > 0 && l <= c05maxFrame && uint64(len(stream)-k) >= l {
 			if dec, err := c05decode(stream[k : k+int(l)]); err == nil {
 				var ex int
-				must, rule, _ = e.judge(dec, &ex)
+				must, rule, _ = e.judge(dec, &ex, rc.win)
 			} else {
 				rule = "undecodable"
 			}
@@ -1792,6 +1997,562 @@ func (x *c05x) famOversize() {
 	}
 }
 
+
+// ---------------------------------------------------------------------------------------------------------
+// dimension "boundary slots": the peer-controlled duty slot (uint64 on the wire) at every power of two and at
+// the overflow boundaries of the arithmetic the gater and the deadline function could do with it
+// ---------------------------------------------------------------------------------------------------------
+
+type c05bslot struct {
+	slot  uint64
+	class string
+}
+
+// c05boundarySlots: for every k in 0..63: 2^k-1, 2^k, 2^k+1, 2^k+cur, 2^k+cur+3*spe; the boundaries of
+// slot*slotDur in int64 nanoseconds, of int64(slot), 2^64-1; the window boundaries of w. First class wins.
+func c05boundarySlots(w c05window) (out []c05bslot) {
+	seen := map[uint64]bool{}
+	add := func(s uint64, class string) {
+		if !seen[s] {
+			seen[s] = true
+			out = append(out, c05bslot{s, class})
+		}
+	}
+	cur := w.curSlot()
+	first := (cur/w.spe + uint64(w.allowed) + 1) * w.spe // first slot of the first epoch that is not allowed
+	add(first-1, "window-last-allowed")
+	add(first, "window-first-gated")
+	add(first+1, "window-first-gated+1")
+	add(cur, "current-slot")
+	add(cur+3*w.spe-1, "cur+3spe-1")
+	add(cur+3*w.spe, "cur+3spe")
+	for k := 0; k < 64; k++ {
+		p := uint64(1) << k
+		add(p-1, "2^k-1")
+		add(p, "2^k")
+		add(p+1, "2^k+1")
+		add(p+cur, "2^k+cur")
+		add(p+cur+3*w.spe, "2^k+cur+3spe")
+	}
+	m := uint64(math.MaxInt64 / int64(w.slotDur)) // largest slot whose start offset fits int64 nanoseconds
+	add(m-1, "ns-overflow-2")
+	add(m, "ns-overflow-1")
+	add(m+1, "ns-overflow")
+	add(m+cur, "ns-overflow+cur")
+	add(math.MaxInt64, "int64-max")
+	add(1<<63, "int64-overflow")
+	add(1<<63+1000, "int64-overflow+1000")
+	add(math.MaxUint64, "uint64-max")
+	return out
+}
+
+// duty types on the wire (int32): every valid one and the invalid neighbours/extremes
+var c05wireTypes = []int32{-1, 0, 1, 2, 3, 4, 5, 6, 7, 8, 9, 10, 11, 12, 13, 14, math.MaxInt32, math.MinInt32}
+
+// famBoundarySlots: the base message, correctly signed again (all justifications too) for every boundary slot, one
+// duty type per unit. The receiver is wired to the option-less core.NewDutyGater, core.NewDutyDeadlineFunc and a
+// real deadliner on the bubble's fake clock.
+func (x *c05x) famBoundarySlots(typ int32, thorough bool) {
+	for _, bs := range c05boundarySlots(x.rc.win) {
+		id := fmt.Sprintf("slot=%d,type=%d", bs.slot, typ)
+		cls := fmt.Sprintf("bslot:%s:t=%d", bs.class, typ)
+		x.emitMsg("duty="+id, cls, x.e.restamp(x.base.msg, bs.slot, typ, true))
+		if thorough && len(x.base.msg.GetJustification()) > 0 {
+			x.emitMsg("duty="+id+"(msg-only)", cls+"(msg-only)", x.e.restamp(x.base.msg, bs.slot, typ, false))
+		}
+	}
+}
+
+type c05gcfg struct {
+	name    string
+	slotDur time.Duration
+	spe     uint64
+}
+
+var c05gcfgs = []c05gcfg{{"12s/32", 12 * time.Second, 32}, {"5s/16", 5 * time.Second, 16}, {"1s/8", time.Second, 8}}
+
+type c05gclock struct {
+	name string
+	off  func(c c05gcfg) time.Duration // now - genesis
+}
+
+var c05gclocks = []c05gclock{
+	{"genesis", func(c c05gcfg) time.Duration { return 0 }},
+	{"genesis+1ns", func(c c05gcfg) time.Duration { return 1 }},
+	{"slot1-1ns", func(c c05gcfg) time.Duration { return c.slotDur - 1 }},
+	{"epoch1-1ns", func(c c05gcfg) time.Duration { return time.Duration(c.spe)*c.slotDur - 1 }},
+	{"epoch1", func(c c05gcfg) time.Duration { return time.Duration(c.spe) * c.slotDur }},
+	{"slot1001+3/8", func(c c05gcfg) time.Duration { return 1001*c.slotDur + 3*c.slotDur/8 }},
+	{"slot10000019+3/5", func(c c05gcfg) time.Duration { return 10_000_019*c.slotDur + 3*c.slotDur/5 }},
+	{"before-genesis-1ns", func(c c05gcfg) time.Duration { return -1 }},
+	{"before-genesis-1slot", func(c c05gcfg) time.Duration { return -c.slotDur }},
+	{"before-genesis-1epoch", func(c c05gcfg) time.Duration { return -time.Duration(c.spe) * c.slotDur }},
+	{"before-genesis-1000epochs-1ns", func(c c05gcfg) time.Duration { return -1000*time.Duration(c.spe)*c.slotDur - 1 }},
+}
+
+// duty types as the gater function sees them (core.DutyType is an int): as on the wire, plus values that only
+// look valid after a narrowing conversion
+var c05directTypes = []int{-1, 0, 1, 2, 3, 4, 5, 6, 7, 8, 9, 10, 11, 12, 13, 14, 15, math.MaxInt32, math.MinInt32, 1<<32 + 2, -(1 << 32) + 2}
+
+// c05gaterUnit calls the function returned by core.NewDutyGater directly, clock pinned at one instant, for every
+// boundary slot x duty type. Expectation (math/big): allowed iff the type is valid and epoch(slot) <= current epoch +
+// allowed future epochs. With the clock before genesis only invalid types are judged.
+func c05gaterUnit(t *testing.T, r *enumx.Run, cfg c05gcfg, ck c05gclock, only string) {
+	off := ck.off(cfg)
+	ctx := context.Background()
+	run := func(variant string, allowed int, mk func() (core.DutyGaterFunc, error)) {
+		w := c05window{nowOff: off, slotDur: cfg.slotDur, spe: cfg.spe, allowed: allowed}
+		g, err := mk()
+		if err != nil {
+			r.Note("cannot build a duty gater: " + err.Error())
+			return
+		}
+		vclass := variant
+		if i := strings.IndexByte(variant, '/'); i > 0 {
+			vclass = variant[:i]
+		}
+		for _, bs := range c05boundarySlots(w) {
+			for _, typ := range c05directTypes {
+				id := fmt.Sprintf("%s|%d|%d", variant, bs.slot, typ)
+				if only != "" && id != only {
+					continue
+				}
+				d := core.Duty{Slot: bs.slot, Type: core.DutyType(typ)}
+				got := g(d)
+				r.Eval(fmt.Sprintf("gater:%s:%s:t=%d", vclass, bs.class, typ))
+				r.Steps(1)
+				var want, judged bool
+				switch {
+				case c05dutyInvalid(d):
+					want, judged = false, true
+				case off < 0:
+					r.Count("gater_direct_not_judged_before_genesis", 1)
+				default:
+					want, judged = !w.gated(d), true
+				}
+				if got {
+					r.Count("gater_direct_allowed:"+bs.class, 1)
+				} else {
+					r.Count("gater_direct_refused:"+bs.class, 1)
+				}
+				if !judged || got == want {
+					continue
+				}
+				same := true
+				for k := 0; k < 3; k++ {
+					if g2, err := mk(); err != nil || g2(d) != got {
+						same = false
+					}
+				}
+				if !same {
+					r.Unconfirmed("gater " + cfg.name + " " + ck.name + " " + id)
+					continue
+				}
+				dir, tc := "refuses-allowed-duty", "valid"
+				if got {
+					dir = "allows-disallowed-duty"
+				}
+				if c05dutyInvalid(d) {
+					tc = "invalid"
+				}
+				before := ""
+				if off < 0 {
+					before = " clock=before-genesis"
+				}
+				r.Violation(fmt.Sprintf("kind=gater-%s slotclass=%s type=%s gater=%s%s", dir, bs.class, tc, vclass, before),
+					fmt.Sprintf("core.NewDutyGater (%s, slot %v, %d slots per epoch, clock %s = genesis%+d ns, allowed future epochs %d) returned %v for duty slot %d type %d; "+
+						"current slot %d, epoch(slot)=%d, current epoch %d", variant, cfg.slotDur, cfg.spe, ck.name, int64(off), allowed, got, bs.slot, typ,
+						w.curSlot(), bs.slot/cfg.spe, w.curSlot()/cfg.spe),
+					c05case{Key: cfg.name + "|" + ck.name, Family: "gater", ID: id})
+			}
+		}
+	}
+	// the option-less constructor (default window, time.Now) inside a bubble: the fake clock stands still
+	synctest.Test(t, func(t *testing.T) {
+		genesis := time.Now().Add(-off)
+		run("default", 2, func() (core.DutyGaterFunc, error) {
+			return core.NewDutyGater(ctx, &c05eth2{genesis: genesis, slotDur: cfg.slotDur, spe: cfg.spe})
+		})
+	})
+	now := c05rcvGenesis.Add(off)
+	for _, a := range []int{0, 1, 2, 5} {
+		run(fmt.Sprintf("forT/%d", a), a, func() (core.DutyGaterFunc, error) {
+			return core.NewDutyGater(ctx, &c05eth2{genesis: c05rcvGenesis, slotDur: cfg.slotDur, spe: cfg.spe},
+				core.WithDutyGaterForT(t, func() time.Time { return now }, a))
+		})
+	}
+}
+
+// ---------------------------------------------------------------------------------------------------------
+// dimension "history": the same alteration families against a long-lived component that has already seen the
+// genuine messages (or sees them afterwards), and signatures seen in one duty reused in another
+// ---------------------------------------------------------------------------------------------------------
+
+type c05hist struct {
+	// "A": the genuine messages first, then every altered copy, all on one component, nothing removed
+	// "B": on one component: each altered copy, then the genuine messages whose signatures it carries
+	// "F": like B, on a fresh component per altered copy (the altered copy is the first thing it ever sees)
+	// "C": like A, after all genuine messages of the other duty's instance as well
+	mode   string
+	prefix []*c05entry          // genuine: the messages used as justifications (each as a main message), then the base
+	bySig  map[string]*c05entry // signature of the main message -> corpus entry (both duties)
+	log    [][]byte             // every payload delivered to the long-lived component, in order
+}
+
+func (h *c05hist) longLived() bool { return h.mode != "F" }
+
+// freshAccepts: the differential oracle's reference - does a component without any history accept the payload
+func (e *c05env) freshAccepts(payload []byte) (bool, error) {
+	k := sha256.Sum256(payload)
+	if v, ok := e.fresh[k]; ok {
+		return v, nil
+	}
+	rc, err := c05newRcv(e)
+	if err != nil {
+		return false, err
+	}
+	defer rc.cancel()
+	var acc bool
+	if dec, derr := c05decode(payload); derr != nil {
+		before := c05snap(rc.nd.c)
+		rc.nd.host.inject(e.peers[0].ID, c05frame(payload))
+		acc = c05snap(rc.nd.c) != before
+	} else {
+		_, _, err := rc.nd.c.handle(context.Background(), e.peers[0].ID, dec)
+		acc = err == nil
+	}
+	e.fresh[k] = acc
+	return acc, nil
+}
+
+func c05acc(b bool) string {
+	if b {
+		return "accepts"
+	}
+	return "rejects"
+}
+
+// deliver hands one payload to the component with history and applies both oracles.
+func (x *c05x) histDeliver(rc *c05rcv, payload []byte) c05outcome {
+	if x.hist.longLived() {
+		x.hist.log = append(x.hist.log, payload)
+	}
+	o := x.e.tryOpt(rc, payload, false, true)
+	x.r.Steps(1)
+	if o.Bad == "" {
+		x.r.Count("hist_differential_checks", 1)
+		if fa, err := x.e.freshAccepts(payload); err == nil && fa != o.Accepted {
+			o.Bad = "history-changes-verdict"
+			o.Rule = "fresh-" + c05acc(fa) + "-with-history-" + c05acc(o.Accepted)
+			o.Detail = fmt.Sprintf("a component without history %s this message, the component with history %s it (handle error %q)", c05acc(fa), c05acc(o.Accepted), o.Err)
+		}
+	}
+	return o
+}
+
+// histConfirm replays the whole delivery log (long-lived modes) or the given short sequence on new components.
+func (x *c05x) histConfirm(seq [][]byte, want c05outcome) bool {
+	for k := 0; k < 3; k++ {
+		rc, err := c05newRcv(x.e)
+		if err != nil {
+			return false
+		}
+		var last c05outcome
+		for _, p := range seq {
+			last = x.e.tryOpt(rc, p, false, true)
+		}
+		rc.cancel()
+		if last.Bad == "" {
+			if fa, err := x.e.freshAccepts(seq[len(seq)-1]); err == nil && fa != last.Accepted {
+				last.Bad = "history-changes-verdict"
+			}
+		}
+		if last.Bad != want.Bad || last.Accepted != want.Accepted {
+			return false
+		}
+	}
+	return true
+}
+
+func (x *c05x) histViolation(id, what string, seq [][]byte, o c05outcome) {
+	x.r.Count("violating:hist"+x.hist.mode+":"+what, 1)
+	sig := fmt.Sprintf("kind=%s rule=%s where=%s msgkind=%s history=%s", o.Bad, o.Rule, o.Where, x.base.Kind, x.hist.mode)
+	if x.e.reported[sig] {
+		x.r.Count("violating_cases", 1)
+		return
+	}
+	if !x.histConfirm(seq, o) {
+		x.r.Unconfirmed(fmt.Sprintf("%s %s %s", x.base.Key, x.family, id))
+		return
+	}
+	x.e.reported[sig] = true
+	desc := fmt.Sprintf("%s; corpus message %s, family %s, %s %s; %d deliveries to this component before it (genuine messages first: %v); handle error: %q",
+		o.Detail, c05describe(x.base), x.family, what, id, len(seq)-1, x.hist.mode == "A" || x.hist.mode == "C", o.Err)
+	x.r.Violation(sig, desc, c05case{Key: x.base.Key, Family: x.family, ID: id,
+		Base: base64.StdEncoding.EncodeToString(x.base.wire), Alt: base64.StdEncoding.EncodeToString(seq[len(seq)-1])})
+}
+
+// victims: the genuine messages whose signatures the altered message carries, then the base message.
+func (x *c05x) victims(payload []byte) (out []*c05entry) {
+	seen := map[*c05entry]bool{}
+	add := func(en *c05entry) {
+		if en != nil && !seen[en] {
+			seen[en] = true
+			out = append(out, en)
+		}
+	}
+	if dec, err := c05decode(payload); err == nil {
+		for _, q := range append([]*pbv1.QBFTMsg{dec.GetMsg()}, dec.GetJustification()...) {
+			add(x.hist.bySig[string(q.GetSignature())])
+		}
+	}
+	if !seen[x.base] {
+		for en := range seen {
+			if en.Key == x.base.Key && bytes.Equal(en.wire, x.base.wire) {
+				return out
+			}
+		}
+		add(x.base)
+	}
+	return out
+}
+
+// emitHist evaluates one altered payload against a component with history.
+func (x *c05x) emitHist(id, class string, payload []byte) {
+	h := x.hist
+	rc := x.rc
+	if !h.longLived() {
+		var err error
+		if rc, err = c05newRcv(x.e); err != nil {
+			x.r.Note("cannot build a receiver: " + err.Error())
+			return
+		}
+		defer rc.cancel()
+	}
+	o := x.histDeliver(rc, payload)
+	x.found = &o
+	x.r.Eval(x.base.Kind + ":hist" + h.mode + ":" + class)
+	switch {
+	case o.Accepted:
+		x.r.Count("hist"+h.mode+"_altered_accepted", 1)
+	default:
+		x.r.Count("hist"+h.mode+"_altered_rejected", 1)
+	}
+	if o.Must {
+		x.r.Count("hist"+h.mode+"_must_reject:"+o.Rule, 1)
+		if (o.Rule == "bad-signature" || o.Rule == "unsigned-content") && !o.Accepted {
+			x.r.Count("hist_replayed_signature_rejected", 1)
+		}
+	}
+	x.r.Count("signature_equivalents_excused", o.excused)
+	seq := [][]byte{payload}
+	if h.longLived() {
+		seq = h.log
+	}
+	if o.Bad != "" {
+		x.histViolation(id, "altered copy", append([][]byte(nil), seq...), o)
+	}
+	if h.mode != "B" && h.mode != "F" {
+		return
+	}
+	// the genuine messages afterwards: they must be taken exactly as a component without history takes them
+	for _, en := range x.victims(payload) {
+		g := x.histDeliver(rc, en.wire)
+		x.r.Eval(x.base.Kind + ":hist" + h.mode + ":genuine-after:" + c05noIndex(class))
+		if g.Accepted && g.Bad == "" {
+			x.r.Count("hist"+h.mode+"_genuine_after_altered_accepted", 1)
+			continue
+		}
+		x.r.Count("hist"+h.mode+"_genuine_after_altered_not_accepted", 1)
+		if g.Bad != "" {
+			g.Where = "genuine-after-altered"
+			s2 := [][]byte{payload, en.wire}
+			if h.longLived() {
+				s2 = append([][]byte(nil), h.log...)
+			}
+			x.histViolation(id, "genuine message "+en.Key+" delivered after altered copy", s2, g)
+		}
+	}
+}
+
+// histGenuine delivers a genuine corpus message to the long-lived component.
+func (x *c05x) histGenuine(en *c05entry, phase string) {
+	g := x.histDeliver(x.rc, en.wire)
+	x.r.Eval(x.base.Kind + ":hist" + x.hist.mode + ":genuine-" + phase)
+	if g.Accepted && g.Bad == "" {
+		x.r.Count("hist"+x.hist.mode+"_genuine_"+phase+"_accepted", 1)
+		return
+	}
+	x.r.Count("hist"+x.hist.mode+"_genuine_"+phase+"_not_accepted", 1)
+	if g.Bad != "" {
+		g.Where = "genuine-" + phase
+		x.histViolation("genuine:"+en.Key, "genuine message ("+phase+")", append([][]byte(nil), x.hist.log...), g)
+		return
+	}
+	x.r.Note(fmt.Sprintf("history: genuine message %s is accepted neither with nor without history (%s)", en.Key, g.Err))
+}
+
+// histPrefix: every message used as a justification of the base (transitively), as the genuine main message it
+// once was, then the base itself.
+func (x *c05x) histPrefix(mat c05mat) (out []*c05entry) {
+	seen := map[*c05entry]bool{}
+	var add func(q *pbv1.QBFTMsg)
+	add = func(q *pbv1.QBFTMsg) {
+		for _, en := range mat.corpus {
+			if seen[en] || !proto.Equal(en.msg.GetMsg(), q) {
+				continue
+			}
+			seen[en] = true
+			for _, j := range en.msg.GetJustification() {
+				add(j)
+			}
+			out = append(out, en)
+		}
+	}
+	for _, j := range x.base.msg.GetJustification() {
+		add(j)
+	}
+	for en := range seen {
+		if bytes.Equal(en.wire, x.base.wire) {
+			return out
+		}
+	}
+	return append(out, x.base)
+}
+
+// famCross: signatures seen in one duty's instance reused in the other's.
+func (x *c05x) famCross(mat c05mat) {
+	base := x.base.msg
+	dD := &pbv1.Duty{Slot: c05D.Slot, Type: int32(c05D.Type)}
+	dD2 := &pbv1.Duty{Slot: c05D2.Slot, Type: int32(c05D2.Type)}
+	limit := 2 * (len(base.GetJustification()) + 1)
+	// the counterpart in the other duty's instance: same type and member (same round if there is one)
+	counterpart := func(q *pbv1.QBFTMsg) *c05entry {
+		var best *c05entry
+		score := -1
+		for _, en := range mat.corpus2 {
+			m := en.msg.GetMsg()
+			sc := 0
+			if m.GetPeerIdx() == q.GetPeerIdx() {
+				sc += 4
+			}
+			if m.GetType() == q.GetType() {
+				sc += 2
+			}
+			if m.GetRound() == q.GetRound() {
+				sc++
+			}
+			if sc > score {
+				best, score = en, sc
+			}
+		}
+		return best
+	}
+	elems := append([]*pbv1.QBFTMsg{base.GetMsg()}, base.GetJustification()...)
+	set := func(alt *pbv1.QBFTConsensusMsg, pos int, q *pbv1.QBFTMsg) {
+		if pos == 0 {
+			alt.Msg = q
+		} else {
+			alt.Justification[pos-1] = q
+		}
+	}
+	for pos, q := range elems {
+		where := "msg"
+		if pos > 0 {
+			where = fmt.Sprintf("justification[%d]", pos-1)
+		}
+		c2 := counterpart(q)
+		if c2 == nil {
+			continue
+		}
+		// this element's content with the signature its member made in the other duty
+		alt := c05clone(base)
+		cq := proto.Clone(q).(*pbv1.QBFTMsg)
+		cq.Signature = c2.msg.GetMsg().GetSignature()
+		set(alt, pos, cq)
+		x.emitMsg("xduty:"+where+":signature-from:"+c2.Key, "xduty:"+where+":signature-from-other-duty", alt)
+		// the other duty's message itself, its duty field rewritten, in this place (its value attached)
+		alt = c05clone(base)
+		cq = proto.Clone(c2.msg.GetMsg()).(*pbv1.QBFTMsg)
+		cq.Duty = dD
+		set(alt, pos, cq)
+		for _, v := range c2.msg.GetValues() {
+			if len(alt.Values) < limit {
+				alt.Values = append(alt.Values, v)
+			}
+		}
+		x.emitMsg("xduty:"+where+":other-duty-message-relabelled:"+c2.Key, "xduty:"+where+":other-duty-message-relabelled", alt)
+	}
+	// whole messages of the other duty's instance relabelled as this duty (signatures as they are)
+	for _, en := range mat.corpus2 {
+		alt := c05clone(en.msg)
+		alt.Msg.Duty = dD
+		for _, j := range alt.Justification {
+			j.Duty = dD
+		}
+		x.emitMsg("xduty:whole-other-duty-message-relabelled:"+en.Key, "xduty:whole-other-duty-message-relabelled:"+en.Kind, alt)
+	}
+	// this message relabelled as the other duty
+	{
+		alt := c05clone(base)
+		alt.Msg.Duty = dD2
+		for _, j := range alt.Justification {
+			j.Duty = dD2
+		}
+		x.emitMsg("xduty:whole-message-relabelled-as-other-duty", "xduty:whole-message-relabelled-as-other-duty", alt)
+	}
+	// a genuine message of the other duty carrying this message's justifications relabelled as that duty
+	if src := c05find(mat.corpus2, "PREPARE"); src != nil && len(base.GetJustification()) > 0 {
+		alt := c05clone(src.msg)
+		for _, j := range base.GetJustification() {
+			cj := proto.Clone(j).(*pbv1.QBFTMsg)
+			cj.Duty = dD2
+			alt.Justification = append(alt.Justification, cj)
+		}
+		alt.Values = append(alt.Values, base.GetValues()...)
+		x.emitMsg("xduty:other-duty-message-with-these-justifications-relabelled", "xduty:just-relabelled-into-other-duty", alt)
+	}
+}
+
+// runHist: fam = "hist-<mode>/<alteration family>"
+func (x *c05x) runHist(fam string, mat c05mat, thorough bool) {
+	mode, sub := fam[5:6], fam[7:]
+	h := &c05hist{mode: mode, bySig: map[string]*c05entry{}, prefix: x.histPrefix(mat)}
+	for _, en := range append(append([]*c05entry(nil), mat.corpus...), mat.corpus2...) {
+		h.bySig[string(en.msg.GetMsg().GetSignature())] = en
+	}
+	x.hist = h
+	defer func() { x.hist = nil }()
+	if mode == "C" {
+		for _, en := range mat.corpus2 {
+			x.histGenuine(en, "other-duty-first")
+		}
+	}
+	if mode == "A" || mode == "C" {
+		for _, en := range h.prefix {
+			x.histGenuine(en, "first")
+		}
+	}
+	switch sub {
+	case "fields":
+		x.famFields(thorough)
+	case "subst":
+		x.famSubst(mat, thorough)
+	case "cross":
+		x.famCross(mat)
+	}
+	if h.longLived() && x.only == "" {
+		for _, en := range h.prefix {
+			x.histGenuine(en, "last")
+		}
+		if mode == "C" {
+			for _, en := range mat.corpus2 {
+				x.histGenuine(en, "other-duty-last")
+			}
+		}
+	}
+}
+
 // ---------------------------------------------------------------------------------------------------------
 // second half: the value handed to the subscribers is exactly the proposed data whose hash was agreed
 // ---------------------------------------------------------------------------------------------------------
@@ -1866,8 +2627,12 @@ func c05leader(d core.Duty, round int64) int {
 
 func (x *c05x) runFamily(fam string, mat c05mat, thorough bool) {
 	x.family = fam
+	if strings.HasPrefix(fam, "hist-") {
+		x.runHist(fam, mat, thorough)
+		return
+	}
 	// non-vacuity: the unaltered message is accepted by this fresh receiver
-	if x.only == "" {
+	if x.only == "" && !strings.HasPrefix(fam, "bslots2/") {
 		o := x.e.try(x.rc, x.base.wire, false)
 		x.r.Eval(x.base.Kind + ":unaltered")
 		if o.Accepted && o.Bad == "" && !o.Must {
@@ -1896,11 +2661,61 @@ func (x *c05x) runFamily(fam string, mat c05mat, thorough bool) {
 		x.famRaw()
 	case fam == "oversize":
 		x.famOversize()
+	case strings.HasPrefix(fam, "bslots/t="), strings.HasPrefix(fam, "bslots2/t="):
+		var typ int32
+		fmt.Sscanf(fam[strings.IndexByte(fam, '=')+1:], "%d", &typ)
+		x.famBoundarySlots(typ, thorough)
 	case strings.HasPrefix(fam, "raw-short/"):
 		var lo, hi int
 		fmt.Sscanf(fam, "raw-short/%d-%d", &lo, &hi)
 		x.famRawShort(lo, hi)
 	}
+}
+
+// c05win2 is a second clock for the boundary-slot dimension: a chain that has been running for some years
+var c05win2 = c05window{nowOff: 10_000_019*c05slotDur + 7300*time.Millisecond, slotDur: c05slotDur, spe: c05spe, allowed: 2}
+
+// runUnit runs one (message, family) unit on a receiver of the kind the family needs.
+func (x *c05x) runUnit(fam string, mat c05mat, thorough bool) error {
+	if strings.HasPrefix(fam, "bslots") {
+		// inside a bubble: option-less gater and deadliner on the bubble's fake clock
+		w := c05defWin
+		if strings.HasPrefix(fam, "bslots2/") {
+			w = c05win2
+		}
+		var rerr error
+		synctest.Test(x.t, func(t *testing.T) {
+			var made []*c05rcv
+			x.mk = func() (*c05rcv, error) {
+				rc, err := c05newRcvBubble(x.e, w)
+				if err == nil {
+					made = append(made, rc)
+				}
+				return rc, err
+			}
+			rc, err := x.mk()
+			if err != nil {
+				rerr = err
+				return
+			}
+			x.rc = rc
+			x.runFamily(fam, mat, thorough)
+			for _, rc := range made {
+				rc.cancel()
+			}
+			synctest.Wait()
+		})
+		x.mk = nil
+		return rerr
+	}
+	rc, err := c05newRcv(x.e)
+	if err != nil {
+		return err
+	}
+	x.rc = rc
+	x.runFamily(fam, mat, thorough)
+	rc.cancel()
+	return nil
 }
 
 func TestVerifC05(t *testing.T) {
@@ -1943,7 +2758,7 @@ func TestVerifC05(t *testing.T) {
 	kinds := map[string]int{}
 	for _, en := range append(append([]*c05entry(nil), corpus...), corpus2...) {
 		var ex int
-		if must, rule, where := e.judge(en.msg, &ex); must && core.DutyFromProto(en.msg.GetMsg().GetDuty()) == c05D {
+		if must, rule, where := e.judge(en.msg, &ex, c05defWin); must && core.DutyFromProto(en.msg.GetMsg().GetDuty()) == c05D {
 			r.Note(fmt.Sprintf("harness: corpus message %s is not authentic for the oracle (%s at %s)", en.Key, rule, where))
 		}
 	}
@@ -1973,6 +2788,18 @@ func TestVerifC05(t *testing.T) {
 	for _, m := range wireMasks {
 		families = append(families, fmt.Sprintf("wire^%02x", m))
 	}
+	// history on a long-lived component
+	families = append(families, "hist-A/fields", "hist-A/subst", "hist-B/fields", "hist-B/subst", "hist-F/fields", "hist-F/subst",
+		"hist-C/cross", "hist-B/cross", "hist-F/cross")
+	// boundary slots through handle, one unit per duty type
+	for _, typ := range c05wireTypes {
+		families = append(families, fmt.Sprintf("bslots/t=%d", typ))
+	}
+	if thorough {
+		for _, typ := range c05wireTypes {
+			families = append(families, fmt.Sprintf("bslots2/t=%d", typ))
+		}
+	}
 
 	if r.ReplayPath != "" {
 		var c c05case
@@ -1995,6 +2822,17 @@ func TestVerifC05(t *testing.T) {
 			}
 			return
 		}
+		if c.Family == "gater" {
+			for _, cfg := range c05gcfgs {
+				for _, ck := range c05gclocks {
+					if cfg.name+"|"+ck.name == c.Key {
+						c05gaterUnit(t, r, cfg, ck, c.ID)
+						fmt.Printf("replay gater %s / %s: evaluated (see violations)\n", c.Key, c.ID)
+					}
+				}
+			}
+			return
+		}
 		raw, _ := base64.StdEncoding.DecodeString(c.Base)
 		m, err := c05decode(raw)
 		if err != nil {
@@ -2003,13 +2841,16 @@ func TestVerifC05(t *testing.T) {
 		for _, q := range append([]*pbv1.QBFTMsg{m.GetMsg()}, m.GetJustification()...) {
 			e.register(q, q.GetPeerIdx()) // the stored base message came out of a real run
 		}
-		rc, err := c05newRcv(e)
-		if err != nil {
+		base := &c05entry{Key: c.Key, Kind: c05kind(m), msg: m, wire: raw}
+		for _, en := range corpus {
+			if bytes.Equal(en.wire, raw) {
+				base = en
+			}
+		}
+		x := &c05x{t: t, r: r, e: e, base: base, only: c.ID}
+		if err := x.runUnit(c.Family, mat, true); err != nil {
 			t.Fatal(err)
 		}
-		defer rc.cancel()
-		x := &c05x{t: t, r: r, e: e, rc: rc, base: &c05entry{Key: c.Key, Kind: c05kind(m), msg: m, wire: raw}, only: c.ID}
-		x.runFamily(c.Family, mat, true)
 		if x.found != nil {
 			fmt.Printf("replay %s / %s / %s: %+v\n", c.Key, c.Family, c.ID, *x.found)
 		} else {
@@ -2072,18 +2913,27 @@ func TestVerifC05(t *testing.T) {
 			if r.Expired() {
 				return
 			}
-			rc, err := c05newRcv(e)
-			if err != nil {
+			x := &c05x{t: t, r: r, e: e, base: en}
+			if err := x.runUnit(fam, mat, thorough); err != nil {
 				r.NotExhaustive("cannot build a receiver: " + err.Error())
 				return
 			}
-			x := &c05x{t: t, r: r, e: e, rc: rc, base: en}
-			x.runFamily(fam, mat, thorough)
-			rc.cancel()
 			if sampled < 2 {
 				sampled++
 				r.Sample(map[string]any{"corpus_message": c05describe(en), "family": fam})
 			}
+		}
+	}
+	// global units: the duty gater called directly, one unit per (beacon spec, clock)
+	for _, cfg := range c05gcfgs {
+		for _, ck := range c05gclocks {
+			if !r.Mine() {
+				continue
+			}
+			if r.Expired() {
+				return
+			}
+			c05gaterUnit(t, r, cfg, ck, "")
 		}
 	}
 	// global units: short byte strings, oversize frames
